@@ -94,6 +94,7 @@ class H:
 
 _ir_lock = threading.Lock()
 _ir_locks = {}
+_ir_memo = {}
 
 
 def sha(s):
@@ -111,6 +112,8 @@ def compile_ir(path, defs, work, opt='-O1', tag=None, overlay_rules=True, ubsan=
     with _ir_lock:
         lk = _ir_locks.setdefault(key_base, threading.Lock())
     with lk:
+        if key_base in _ir_memo:
+            return _ir_memo[key_base]
         rc, pre, _, _ = run(['clang++-14'] + flags + extra + ['-E', '-P', src], timeout=300)
         if rc != 0:
             raise Inconclusive('preprocess failed for %s:\n%s' % (path, pre[-3000:]))
@@ -123,6 +126,7 @@ def compile_ir(path, defs, work, opt='-O1', tag=None, overlay_rules=True, ubsan=
             if rc != 0:
                 raise Inconclusive('clang IR compile failed for %s:\n%s' % (path, out[-4000:]))
             os.replace(tmp, cpath)
+        _ir_memo[key_base] = cpath
         return cpath
 
 
@@ -286,11 +290,19 @@ class Job:
             lls.append(compile_ir(resolve_src(l, self.hdir), {k: v for k, v in defs.items() if k.startswith('VERIF_')}, w, h.opt, ubsan=h.ubsan))
         ovs = [compile_ir(resolve_src(o, self.hdir), defs, w, h.opt, overlay_rules=False, ubsan=h.ubsan) for o in h.override]
         linked = os.path.join(w, 'linked.bc')
+        red = os.path.join(w, 'red.bc'); redll = os.path.join(w, 'red.ll')
+        rkey = sha('|'.join(lls) + '#' + '|'.join(ovs) + '#' + h.entry + ','.join(h.keep) + str(h.global_ctors) + 'r1')
+        rcache = os.path.join(CACHE, 'red-' + rkey + '.bc')
+        if os.path.exists(rcache):
+            shutil.copy(rcache, red)
+            rc, out, _, _ = run(['llvm-dis-14', red, '-o', redll], timeout=120)
+            if rc != 0:
+                raise Inconclusive('llvm-dis failed:\n' + out[-3000:])
+            return self.finish_B(red, redll)
         cmd = ['llvm-link-14'] + lls[1:] + ['--override=' + lls[0]] + ['--override=' + o for o in ovs] + ['-o', linked] if len(lls) > 1 or ovs else ['llvm-link-14', lls[0], '-o', linked]
         rc, out, _, _ = run(cmd, timeout=300)
         if rc != 0:
             raise Inconclusive('llvm-link failed:\n' + out[-3000:])
-        red = os.path.join(w, 'red.bc')
         api = ','.join([h.entry] + h.keep)
         if not h.global_ctors:
             # dynamic initialisers of unrelated globals are not executed by CBMC (it starts at the entry function);
@@ -307,10 +319,17 @@ class Job:
         rc, out, _, _ = run(['opt-14', '-internalize', '-internalize-public-api-list=' + api, '-globaldce', linked, '-o', red], timeout=300)
         if rc != 0:
             raise Inconclusive('opt failed:\n' + out[-3000:])
-        redll = os.path.join(w, 'red.ll')
         rc, out, _, _ = run(['llvm-dis-14', red, '-o', redll], timeout=120)
         if rc != 0:
             raise Inconclusive('llvm-dis failed:\n' + out[-3000:])
+        try:
+            tmp = rcache + '.%d.tmp' % threading.get_ident(); shutil.copy(red, tmp); os.replace(tmp, rcache)
+        except Exception:
+            pass
+        return self.finish_B(red, redll)
+
+    def finish_B(self, red, redll):
+        h = self.h; w = self.work
         try:
             csrc, ext = ll2c.translate_module(open(redll).read())
         except Exception as e:
